@@ -66,6 +66,7 @@ type gauge struct {
 	r       *simrt.Run
 	comp    string
 	n       int
+	nocap   bool // the primitive was explicitly configured without a cap: nothing to assert, holders are only counted
 	in      int
 	peak    int
 	entered int
@@ -84,7 +85,14 @@ func (g *gauge) enter(who string) {
 	}
 	g.r.Ev("enter", int64(g.in))
 	if g.r.Tracing() {
-		g.r.Logf("%s: %s enters, %d inside (cap %d)", g.comp, who, g.in, g.n)
+		if g.nocap {
+			g.r.Logf("%s: %s enters, %d inside (no cap)", g.comp, who, g.in)
+		} else {
+			g.r.Logf("%s: %s enters, %d inside (cap %d)", g.comp, who, g.in, g.n)
+		}
+	}
+	if g.nocap {
+		return
 	}
 	if g.in > g.n {
 		g.r.Fail(g.comp+"/cap-exceeded", "%s: %d holders inside the guarded region, capacity is %d (last in: %s)", g.comp, g.in, g.n, who)
@@ -180,9 +188,9 @@ func body(r *simrt.Run, tier string) {
 	case 5:
 		workerGroupRun(r, tier)
 	case 6:
-		mapReduceRun(r, tier)
+		workersRun(r, tier, famMr)
 	case 7:
-		fxRun(r, tier)
+		workersRun(r, tier, famFx)
 	default:
 		poolRun(r, tier)
 	}
